@@ -146,6 +146,28 @@ def run(ctx):
     else:
         res.site("K5|traversal-endpoints", False, {"verdict": "undecided: traversal restructured"})
         res.undecided.append("K5|traversal-endpoints")
+    # R3b exhaustiveness of the enumeration: every node popped is extended along all its outgoing edges.  A traversal that
+    #     skips some extensions (pruning / memoisation) may or may not preserve the maximum; that is not decidable here, so
+    #     it is reported as undecided rather than as a violation.
+    pushes = [(bb, t) for bb, t, c in pf.calls() if c and c.get("name") == "push" and any(c2[1].endswith("::call_mut") or c2[1].endswith("::call") for c2 in expr_calls(fn_expr_operand(pf, t["args"][1])))]
+    if len(pushes) == 1:
+        extra = []
+        inside = pf.reachable_blocks(pushes[0][0])
+
+        def is_next(a):
+            tt = pf.blocks[a]["t"]
+            de = fn_expr_operand(pf, tt["d"]) if tt["k"] == "switch" else ("x",)
+            return de[0] == "discr" and de[1][0] == "call" and (de[1][1].endswith("::next") or de[1][1].endswith("::pop"))
+
+        for sb, tgt in pf.control_deps(pushes[0][0], transitive=False):
+            if not is_next(sb):
+                tt = pf.blocks[sb]["t"]
+                extra.append(str(fn_expr_operand(pf, tt["d"])[:2])[:60] if tt["k"] == "switch" else tt["k"])
+        res.site("K7|exhaustive-extension", not extra, {"extra_conditions": extra, "verdict": "ok" if not extra else "undecided: paths are pruned under %s" % extra})
+        if extra:
+            res.undecided.append("K7|exhaustive-extension: path_fold skips extending some paths (%s); whether the maximum is preserved is not decided" % extra)
+    else:
+        res.undecided.append("K7|exhaustive-extension: traversal restructured")
     res.count("sites", res.sites, floor=7)
     res.explanation = "Wiring of per-qubit chains (provenance of the add_edge endpoints, control dependence of add_node / add_edge), path enumeration of the counting closure, and the shape of the fold."
     res.assumptions = ["petgraph DiGraph add_node/add_edge/externals/neighbors_directed as documented", "Instruction::get_qubits reports the instruction's qubits (C10)"]
